@@ -47,7 +47,7 @@ impl CopyHandle {
         let infd = File::open(from)?;
         let metadata = infd.metadata()?;
 
-        if to.exists() && is_same_file(from, to)? {
+        if to.try_exists()? && is_same_file(from, to)? {
             return Err(XcpError::InvalidDestination("Source and destination are the same file.").into());
         }
 
